@@ -105,6 +105,9 @@ class E1Check:
     def coverage_extra(self, res):
         return {}
 
+    def post_explore(self, res):
+        """Parent-side verdicts after the exploration (may append to res.violations / res.viol_count)."""
+
     def rule(self):
         return ""
 
@@ -172,6 +175,7 @@ class E1Check:
             "reference model (so every explored trace is an implementation trace)",
         }
         cov.update(self.coverage_extra(res))
+        self.post_explore(res)
         return finalize(self, res.violations, res.viol_count, cov, t0, log)
 
 
